@@ -237,6 +237,7 @@ impl C13 {
         cfg.schedules = false;
         cfg.unused = false;
         let mut m = gen_model(rng, &cfg).model;
+        crate::gen::model::vary_outlines(rng, &mut m, 0.15);
         if rng.chance(0.3) {
             // many identical shades among the others
             if let Some(s) = m.shades.first().cloned() {
